@@ -10,11 +10,15 @@ package sod
 
 import (
 	"bytes"
+	"compress/gzip"
 	"encoding/json"
 	"fmt"
+	"io"
 	"math"
 	"os"
+	"path/filepath"
 	"sort"
+	"strings"
 	"time"
 )
 
@@ -399,3 +403,78 @@ func vTruncateFile(path string, mode int) bool {
 }
 
 func vMkdir(path string) { os.MkdirAll(path, 0700) }
+
+// ---- golden corpus ----
+
+const vGoldenDir = "/verif/golden"
+
+func vLoadGolden(name string) string {
+	dst := vTempDir()
+	src := vGoldenDir + "/" + name
+	filepath.Walk(src, func(p string, info os.FileInfo, err error) error {
+		if err != nil {
+			return err
+		}
+		rel, _ := filepath.Rel(src, p)
+		if rel == "." {
+			return nil
+		}
+		if info.IsDir() {
+			return os.MkdirAll(filepath.Join(dst, rel), 0700)
+		}
+		b, err := os.ReadFile(p)
+		if err != nil {
+			return err
+		}
+		return os.WriteFile(filepath.Join(dst, rel), b, 0600)
+	})
+	return dst
+}
+
+func vJSONShape(path string) string {
+	b, err := os.ReadFile(path)
+	if err != nil {
+		return "<missing>"
+	}
+	if strings.HasSuffix(path, ".gz") {
+		zr, err := gzip.NewReader(bytes.NewReader(b))
+		if err != nil {
+			return "<invalid>"
+		}
+		if b, err = io.ReadAll(zr); err != nil {
+			return "<invalid>"
+		}
+	}
+	dec := json.NewDecoder(bytes.NewReader(b))
+	dec.UseNumber()
+	var root interface{}
+	if dec.Decode(&root) != nil {
+		return "<invalid>"
+	}
+	return vShapeOf(root)
+}
+
+func vShapeOf(n interface{}) string {
+	switch o := n.(type) {
+	case nil:
+		return "null"
+	case bool:
+		return "bool"
+	case json.Number:
+		return "num"
+	case string:
+		return "str"
+	case []interface{}:
+		if len(o) == 0 {
+			return "[]"
+		}
+		return "[" + vShapeOf(o[0]) + "*]"
+	case map[string]interface{}:
+		var parts []string
+		for _, k := range vSortedKeys(o) {
+			parts = append(parts, k+":"+vShapeOf(o[k]))
+		}
+		return "{" + strings.Join(parts, ",") + "}"
+	}
+	return "?"
+}
